@@ -180,6 +180,10 @@ def check_markdown(doc):
     try:
         compile_markdown(doc)
     except (ParseError, RecipeCompileError) as e:
+        try:
+            str(e)          # the located message itself must be producible
+        except Exception as e2:  # noqa
+            return [("C07:%s:error-message-cannot-be-produced" % type(e2).__name__, "markdown %r" % doc[:200])]
         lines = doc.splitlines() or [""]     # the tool counts lines the way str.splitlines does
         snippet = e.snippet.strip()
         if not (1 <= e.line <= len(lines)) or (snippet and snippet not in lines[e.line - 1]) or (not snippet and lines[e.line - 1].strip().strip(" \t>-").strip() not in ("", "```", "~~~")
@@ -251,7 +255,7 @@ def check_promptness():
 CORPUS = [["{}"], ["2 {}"], ["mix(flour, salt {})"], ["{} = boil(water)\nserve({})"], ["fry('')"], ["a {}{} b"], ["1" * 400 + " spam\nfry(1 spam)"], ["1" * 400 + " g spam\nfry(" + "1" * 397 + ".0 kg spam)"], ["1" * 4301 + " spam"],
           ["1/0 x"], ["2 1/0 kg x"], ["{1/0} x"], ["x {a 3/0 b}"], [" ".join(["'a'"] * 80)], ["f(" * 25 + "x" + ")" * 25], ["9" * 310 + " x"],
           [""], ["\n"], ["x ="], ["a = b = c"], ["1/ spam"], ["foo, foo = spam"], ["50% x"], ["x\nx = 1\n rest of y"]]
-MD_CORPUS = ["    f(x\x0c", "text\n\n    f(x\u2028", "x {" + "9" * 309 + ".} y", "x {" + "1" * 4301 + "} y", "# T\n\n    " + "9" * 309 + ". g x\n", "```recipe\r\r\nx = 1 egg\nx = 2 eggs\n```\n", "```recipe\x0c\nx = 1 egg\nx = 2 eggs\n```\n", "    x = 1 egg\n\r\r\n    x = 2 eggs\n",
+MD_CORPUS = ["x {123456789012345678901234567890.5 grains} y", "# T\n\n    a {123456789012345678901234567890.5} = 1 x\n    a {123456789012345678901234567890.5} = 2 x\n", "Use {1e5} and {99999999999999999999999999999.25}.\n", "    f(x\x0c", "text\n\n    f(x\u2028", "x {" + "9" * 309 + ".} y", "x {" + "1" * 4301 + "} y", "# T\n\n    " + "9" * 309 + ". g x\n", "```recipe\r\r\nx = 1 egg\nx = 2 eggs\n```\n", "```recipe\x0c\nx = 1 egg\nx = 2 eggs\n```\n", "    x = 1 egg\n\r\r\n    x = 2 eggs\n",
              "  ```recipe\n  x = 1 egg\n \x0c\n  x = 2 eggs\n  ```\n", "*\rx\n", "{1/0}", "![{2} eggs](x.png)", "# T\n\n    1/0 x\n", "# Title for 2\n\n    2 eggs\n", "```recipe\nx = \n```\n", "text {3 1/2} more {x\\}}"]
 
 
